@@ -157,6 +157,11 @@ func c17EncodeBatch(c *rt.Ctx, sub int, strs []string) {
 				bad = "content-differs"
 			} else if v := litViolations(lit, e.html); v != "" {
 				bad = v
+			} else if e.normal && !utf8.ValidString(lit) {
+				// "decodes by any conforming parser": a strict parser rejects ill-formed UTF-8, so with
+				// normalisation on the literal itself has to be well formed (the lenient reference
+				// unescaper above would turn raw invalid bytes into U+FFFD and hide them)
+				bad = "ill-formed-utf8-in-literal"
 			}
 			if bad != "" {
 				c.Violate(rt.Violation{Monitor: "str-encode", Entry: e.name, Kind: bad, Ctx: "value:" + strClass(s),
@@ -187,6 +192,8 @@ func c17EncodeBatch(c *rt.Ctx, sub int, strs []string) {
 			} else if j := bytes.LastIndexByte(out, ':'); j > 2 {
 				if v := litViolations(string(out[1:j]), e.html); v != "" {
 					bad = v
+				} else if e.normal && !utf8.Valid(out[1:j]) {
+					bad = "ill-formed-utf8-in-literal"
 				}
 			}
 			if bad != "" {
@@ -213,6 +220,8 @@ func c17EncodeOne(c *rt.Ctx, sub int, e *strEnc, s string) {
 		c.Violate(rt.Violation{Monitor: "str-encode", Entry: e.name, Kind: "malformed-literal", Ctx: "value:" + strClass(s), Detail: fmt.Sprintf("string %q emitted as %q: %v", s, out, perr), Input: s, Sub: sub})
 	case n.Str != refNormalize(s):
 		c.Violate(rt.Violation{Monitor: "str-encode", Entry: e.name, Kind: "content-differs", Ctx: "value:" + strClass(s), Detail: fmt.Sprintf("string %q emitted as %s", s, out), Input: s, Sub: sub})
+	case e.normal && !utf8.Valid(out):
+		c.Violate(rt.Violation{Monitor: "str-encode", Entry: e.name, Kind: "ill-formed-utf8-in-literal", Ctx: "value:" + strClass(s), Detail: fmt.Sprintf("string %q emitted as %q", s, out), Input: s, Sub: sub})
 	}
 }
 
@@ -433,6 +442,23 @@ func init() {
 			case c.Idx < encC:
 				// lengths 4..40: every byte class at every offset relative to the 8-byte window
 				r := c.RNG(0)
+				if c.Idx == 257 {
+					// every lead byte E0..FF with second bytes at the edges of the ranges the validator
+					// distinguishes (80 8F 90 9F A0 BF and their outer neighbours), continuation bytes at
+					// both ends of their range: well-formed and ill-formed three- and four-byte sequences
+					var edge []string
+					for lead := 0xe0; lead <= 0xff; lead++ {
+						for _, b1 := range []byte{0x7f, 0x80, 0x8f, 0x90, 0x9f, 0xa0, 0xbf, 0xc0} {
+							for _, b2 := range []byte{0x80, 0xbf} {
+								edge = append(edge, string([]byte{byte(lead), b1, b2}), "ab"+string([]byte{byte(lead), b1, b2})+"cdefgh")
+								for _, b3 := range []byte{0x80, 0xbf, 0x41} {
+									edge = append(edge, string([]byte{byte(lead), b1, b2, b3}), "abcdef"+string([]byte{byte(lead), b1, b2, b3})+"g")
+								}
+							}
+						}
+					}
+					c17EncodeBatch(c, 1, edge)
+				}
 				specials := []string{"\x00", "\x1f", "\"", "\\", "<", ">", "&", "\x7f", "\x80", "\xbf", "\xc2", "\xc3\xa9", "\xe2", "\xe2\x80", "\xe2\x80\xa8", "\xe2\x80\xa9", "\xe2\x82\xac", "\xed\xa0\x80",
 					"\xf0\x9f\x98\x80", "\xf0\x9f", "\xf8", "\xff", "\n", "\t", "\r", "\b", "\f", "\xef\xbf\xbd", "\xc0\xaf", "\xf4\x90\x80\x80"}
 				var strs []string
